@@ -263,4 +263,147 @@ theorem proj_wf (rd : Rnd) (hid : ∀ x, rd.r32 (rd.r32 x) = rd.r32 x) (b : ℕ)
       · subst h; exact resolve_wf rd s hs m hm b _ hr
       · exact ih' op h
 
+/-! ## variable-backed mode and compiled calls (seed C07-8) -/
+
+theorem build_true_store (rd : Rnd) (s : QState) : (s.build rd true).store = .var (s.eff rd) := by
+  simp [QState.build, QState.eff]
+
+theorem qrun_append (rd : Rnd) (ops1 ops2 : List Op) : ∀ s : QState,
+    QState.run rd s (ops1 ++ ops2) = QState.run rd (QState.run rd s ops1) ops2 := by
+  induction ops1 with
+  | nil => intro s; rfl
+  | cons o os ih => intro s; simp [QState.run, ih]
+
+theorem crun_append (rd : Rnd) (os1 os2 : List COp) : ∀ c : CState,
+    CState.run rd c (os1 ++ os2) = CState.run rd (CState.run rd c os1) os2 := by
+  induction os1 with
+  | nil => intro c; rfl
+  | cons o os ih => intro c; simp [CState.run, ih]
+
+theorem isVar_step (rd : Rnd) (s : QState) (op : Op) (h : s.store.isVar = true) :
+    ((s.step rd op).1).store.isVar = true := by
+  cases hs : s.store with
+  | py v => simp [hs, Store.isVar] at h
+  | var v =>
+    cases op with
+    | build b => cases b <;> simp [QState.step, QState.build, hs, Store.isVar]
+    | update w => simp [QState.step, QState.update, hs, Store.isVar]
+    | updateFromVar w => simp [QState.step, QState.updateFromVar, hs, Store.isVar]
+    | setUseVars b => simp [QState.step, hs, Store.isVar]
+    | call =>
+      simp only [QState.step, QState.call]
+      split
+      · simp [hs, Store.isVar]
+      · cases s.useVars <;> simp [QState.build, hs, Store.isVar]
+
+theorem isVar_run (rd : Rnd) (ops : List Op) : ∀ s : QState, s.store.isVar = true →
+    (QState.run rd s ops).store.isVar = true := by
+  induction ops with
+  | nil => intro s h; exact h
+  | cons o os ih => intro s h; exact ih _ (isVar_step rd s o h)
+
+/-- variable mode is kept by every operation except switching `use_variables` off and an explicit
+    `build(use_variables=False)` -/
+theorem varMode_step (rd : Rnd) (s : QState) (op : Op) (h : s.varMode = true)
+    (hno : op ≠ .setUseVars false ∧ op ≠ .build false) : ((s.step rd op).1).varMode = true := by
+  unfold QState.varMode at h ⊢
+  cases hv : s.store.isVar with
+  | true => simp [isVar_step rd s op hv]
+  | false =>
+    simp only [hv, Bool.false_or, Bool.and_eq_true, Bool.not_eq_eq_eq_not, Bool.not_true] at h
+    obtain ⟨hu, hb⟩ := h
+    cases op with
+    | build b =>
+      cases b with
+      | true => simp [QState.step, QState.build, Store.isVar]
+      | false => exact absurd rfl hno.2
+    | update w =>
+      cases hs : s.store <;> simp [QState.step, QState.update, hs, hu, hb]
+    | updateFromVar w =>
+      cases hs : s.store <;> simp [QState.step, QState.updateFromVar, hs, hu, hb]
+    | setUseVars b =>
+      cases b with
+      | true => simp [QState.step, hb]
+      | false => exact absurd rfl hno.1
+    | call => simp [QState.step, QState.call, hb, hu, QState.build, Store.isVar]
+
+theorem varMode_run (rd : Rnd) (ops : List Op) : ∀ s : QState, s.varMode = true →
+    (∀ op ∈ ops, op ≠ .setUseVars false ∧ op ≠ .build false) →
+    (QState.run rd s ops).varMode = true := by
+  induction ops with
+  | nil => intro s h _; exact h
+  | cons o os ih =>
+    intro s h hno
+    exact ih _ (varMode_step rd s o h (hno o (by simp))) (fun p hp => hno p (by simp [hp]))
+
+/-- a call of a quantizer in variable mode leaves the factor in a Variable, and the quantizer built -/
+theorem varMode_call (rd : Rnd) (s : QState) (h : s.varMode = true) :
+    (s.call rd).store.isVar = true ∧ (s.call rd).built = true := by
+  unfold QState.varMode at h
+  unfold QState.call
+  cases hb : s.built with
+  | true => simpa [hb] using h
+  | false =>
+    cases hu : s.useVars with
+    | true => simp [QState.build, Store.isVar]
+    | false => simpa [hb, hu, QState.build] using h
+
+theorem built_step (rd : Rnd) (s : QState) (op : Op) (h : s.built = true) :
+    ((s.step rd op).1).built = true := by
+  cases op with
+  | build b => simp [QState.step, QState.build]
+  | update w => cases hs : s.store <;> simp [QState.step, QState.update, hs, h]
+  | updateFromVar w => cases hs : s.store <;> simp [QState.step, QState.updateFromVar, hs, h]
+  | setUseVars b => simp [QState.step, h]
+  | call => simp [QState.step, QState.call, h]
+
+/-- eager operations on an untraced quantizer: the compiled function stays untraced -/
+theorem crun_eager_untraced (rd : Rnd) (ops : List Op) : ∀ s : QState,
+    CState.run rd ⟨s, none⟩ (ops.map .eager) = ⟨QState.run rd s ops, none⟩ := by
+  induction ops with
+  | nil => intro s; rfl
+  | cons o os ih => intro s; simp [CState.run, CState.step, QState.run, ih]
+
+/-- eager operations after a trace that captured the Variable: as long as none of them replaces
+    the Variable the graph keeps reading the quantizer's current one -/
+theorem crun_eager_live (rd : Rnd) (ops : List Op) : ∀ s : QState, s.built = true →
+    (∀ op ∈ ops, op ≠ .build true) →
+    CState.run rd ⟨s, some .live⟩ (ops.map .eager) = ⟨QState.run rd s ops, some .live⟩ := by
+  induction ops with
+  | nil => intro s _ _; rfl
+  | cons o os ih =>
+    intro s hb hno
+    have h1 : s.replacesVar o = false := by
+      cases o with
+      | build b =>
+        cases b with
+        | true => exact absurd rfl (hno _ (by simp))
+        | false => rfl
+      | call => simp [QState.replacesVar, hb]
+      | _ => rfl
+    simp only [List.map_cons, CState.run, CState.step, Option.map_some, Cap.after, h1,
+      Bool.false_eq_true, if_false, QState.run]
+    exact ih _ (built_step rd s o hb) (fun p hp => hno p (by simp [hp]))
+
+theorem ceff_live (rd : Rnd) (s : QState) : (⟨s, some .live⟩ : CState).ceff rd = s.eff rd := by
+  simp [CState.ceff, CState.cstore, CState.step, Cap.store, QState.eff]
+
+theorem cap_after_const (s : QState) (op : Op) (v : ℚ) : Cap.after s op (.const v) = .const v := rfl
+
+/-- a python-number capture is never revised, whatever happens afterwards -/
+theorem crun_const (rd : Rnd) (v : ℚ) (os : List COp) : ∀ c : CState, c.cap = some (.const v) →
+    (CState.run rd c os).cap = some (.const v) := by
+  induction os with
+  | nil => intro c h; exact h
+  | cons o os ih =>
+    intro c h
+    apply ih
+    cases o with
+    | ccall => simp [CState.step, h]
+    | eager op => simp [CState.step, h, cap_after_const]
+
+theorem ceff_const (rd : Rnd) (c : CState) (v : ℚ) (h : c.cap = some (.const v)) :
+    c.ceff rd = rd.r32 v := by
+  simp [CState.ceff, CState.cstore, CState.step, h, Cap.store, Store.asF]
+
 end QKV.QNoise
